@@ -168,6 +168,41 @@ class _Canon2(ast.NodeTransformer):
         return node
 
     def visit_Assign(self, node: ast.Assign):
+        # `v = {**f(..), "k1": e1, "k2": e2}` (a fresh mapping first, then constant keys) is `v = f(..); v["k1"] = e1; v["k2"] = e2`
+        if len(node.targets) == 1 and isinstance(node.targets[0], ast.Name) and isinstance(node.value, ast.Dict) and len(node.value.keys) >= 2 \
+                and node.value.keys[0] is None and isinstance(node.value.values[0], ast.Call) \
+                and all(isinstance(k, ast.Constant) and isinstance(k.value, str) for k in node.value.keys[1:]):
+            nm = node.targets[0].id
+            if not any(isinstance(x, ast.Name) and x.id == nm for v_ in node.value.values for x in ast.walk(v_)):
+                out = [ast.copy_location(ast.Assign(targets=[ast.Name(id=nm, ctx=ast.Store())], value=node.value.values[0]), node)]
+                for k, v_ in zip(node.value.keys[1:], node.value.values[1:]):
+                    tgt = ast.Subscript(value=ast.Name(id=nm, ctx=ast.Load()), slice=k, ctx=ast.Store())
+                    out.append(ast.copy_location(ast.Assign(targets=[tgt], value=v_), node))
+                res = []
+                for i_, st in enumerate(out):
+                    ast.fix_missing_locations(st)
+                    # the stores come one after the other: positions say so (rules compare positions for "after")
+                    for x in ast.walk(st):
+                        if hasattr(x, "lineno"):
+                            x.lineno = node.lineno + i_ * 1e-3  # type: ignore[attr-defined]
+                            x.end_lineno = x.lineno  # type: ignore[attr-defined]
+                    r_ = self.visit_Assign(st)
+                    res += r_ if isinstance(r_, list) else [r_]
+                return res
+        # `a, b = X, Y` with names on the left that do not occur on the right is `a = X; b = Y`
+        if len(node.targets) == 1 and isinstance(node.targets[0], (ast.Tuple, ast.List)) and isinstance(node.value, (ast.Tuple, ast.List)) \
+                and len(node.targets[0].elts) == len(node.value.elts) and all(isinstance(t, ast.Name) for t in node.targets[0].elts) \
+                and not any(isinstance(e, ast.Starred) for e in node.value.elts):
+            tn = {t.id for t in node.targets[0].elts}
+            if not any(isinstance(x, ast.Name) and x.id in tn for e in node.value.elts for x in ast.walk(e)) \
+                    and not any(isinstance(x, (ast.Call, ast.Await, ast.Yield, ast.YieldFrom, ast.NamedExpr)) for e in node.value.elts for x in ast.walk(e)):
+                out = []
+                for t, e in zip(node.targets[0].elts, node.value.elts):
+                    st = ast.copy_location(ast.Assign(targets=[t], value=e), node)
+                    ast.fix_missing_locations(st)
+                    r_ = self.visit_Assign(st)
+                    out += r_ if isinstance(r_, list) else [r_]
+                return out
         # `a, b, c = (F(x) for x in (p, q, r))` (also a list comprehension / list display) is `a = F(p); b = F(q); c = F(r)`
         if len(node.targets) == 1 and isinstance(node.targets[0], (ast.Tuple, ast.List)) and isinstance(node.value, (ast.GeneratorExp, ast.ListComp)) \
                 and len(node.value.generators) == 1 and not node.value.generators[0].ifs and not node.value.generators[0].is_async \
@@ -203,6 +238,11 @@ class _Canon2(ast.NodeTransformer):
         return node
 
     def visit_With(self, node: ast.With):
+        # `with A, B: BODY` is `with A: with B: BODY`
+        if len(node.items) > 1:
+            inner = ast.copy_location(ast.With(items=node.items[1:], body=node.body), node)
+            node = ast.copy_location(ast.With(items=node.items[:1], body=[inner]), node)
+            ast.fix_missing_locations(node)
         # `with ExitStack() as s: s.callback(f, *a); BODY` is `try: BODY finally: f(*a)` (callbacks run last-in first-out)
         self.generic_visit(node)
         # `with suppress(E1, E2): BODY` is `try: BODY except (E1, E2): pass`
@@ -387,6 +427,25 @@ def _aliases(fn: ast.AST) -> None:
                     and not any(src == c or src.startswith(c + ".") or c.startswith(src + ".") for c in stored_chains) \
                     and root.id in params | {"self", "cls"}:
                 cands[nm] = st
+            elif store_count.get(nm, 0) == 1 and nm not in params and nm not in nested_names and store_count.get(root.id, 0) == 1 \
+                    and root.id not in params and root.id not in nested_names \
+                    and not any(src == c or src.startswith(c + ".") or c.startswith(src + ".") for c in stored_chains):
+                # the source is a local bound once, EARLIER IN THE SAME BLOCK (`xn = table[k]; xn_id = xn.id` at the top of a loop body):
+                # in every iteration the alias is taken after the source was bound, and every use comes after the alias
+                for blk in own:
+                    for fld in ("body", "orelse", "finalbody"):
+                        lst = getattr(blk, fld, None)
+                        if isinstance(lst, list) and st in lst:
+                            before = lst[:lst.index(st)]
+                            if any(isinstance(b, (ast.Assign, ast.AnnAssign)) and any(isinstance(t, ast.Name) and t.id == root.id
+                                                                                      for t in (b.targets if isinstance(b, ast.Assign) else [b.target]))
+                                   for b in before):
+                                cands[nm] = st
+                if st in getattr(fn, "body", []):
+                    before = fn.body[:fn.body.index(st)]  # type: ignore[attr-defined]
+                    if any(isinstance(b, (ast.Assign, ast.AnnAssign)) and any(isinstance(t, ast.Name) and t.id == root.id
+                                                                              for t in (b.targets if isinstance(b, ast.Assign) else [b.target])) for b in before):
+                        cands[nm] = st
     for nm, asg in list(cands.items()):
         loads = [n for n in own if isinstance(n, ast.Name) and n.id == nm and isinstance(n.ctx, ast.Load)]
         if not loads or any(getattr(n, "lineno", 0) < getattr(asg, "lineno", 0) for n in loads):
